@@ -18,11 +18,13 @@ def step(srv, kind, rng, valid, crashers, mutants):
     """perform one connection of the given kind; all sockets are closed on return"""
     try:
         if kind == "valid":
-            srv.request(rng.choice(valid).bytes(), timeout=10)
+            data, end = srv.request(rng.choice(valid).bytes(), timeout=6)
+            if not data and end in ("timeout", "refused"):
+                return "unanswered"
         elif kind == "crasher" and crashers:
-            srv.request(rng.choice(crashers), timeout=10)
+            srv.request(rng.choice(crashers), timeout=6)
         elif kind == "mutant" or kind == "crasher":
-            srv.request(rng.choice(mutants), timeout=10)
+            srv.request(rng.choice(mutants), timeout=6)
         elif kind == "early-close":
             s = srv.connect()
             s.close()
@@ -50,6 +52,7 @@ def step(srv, kind, rng, valid, crashers, mutants):
         elif kind == "oversized":
             srv.request(b"GET / HTTP/1.1\r\nHost: x\r\nX-Pad: " + b"p" * rng.choice([10001, 20000, 40000]) + b"\r\n\r\n", timeout=10)
         elif kind == "burst":
+            deadline_hit = [0]
             socks = []
             for _ in range(50):
                 try:
@@ -64,12 +67,16 @@ def step(srv, kind, rng, valid, crashers, mutants):
                     pass
             for s in socks:
                 try:
-                    s.settimeout(10)
+                    s.settimeout(3 if deadline_hit[0] == 0 else 0.2)
                     while s.recv(65536):
                         pass
+                except socket.timeout:
+                    deadline_hit[0] += 1
                 except OSError:
                     pass
                 s.close()
+            if deadline_hit[0] >= 3:
+                return "unanswered"
     except (OSError, socket.timeout):
         pass
 
@@ -132,6 +139,9 @@ def probe_after(c, srv, t, n, history, probe_file):
     # (c) a valid request is answered correctly
     data, end = srv.request(("GET %s HTTP/1.1\r\nHost: x\r\n\r\n" % probe_file).encode(), timeout=15)
     r = httpstrict.parse(data)
+    if not data and end == "timeout":
+        c.violation("C06:probe-unanswered", "after the history a valid GET is not answered within 15 s (typical < 5 ms); worker census %s" % srv.workers_alive(), rp)
+        return False
     if r.status != 200 or r.body != t.files[probe_file]:
         c.violation("C06:probe-wrong-answer", "after the history a valid GET is answered %s / %d bytes (%s)" % (r.status, len(r.body), end), rp)
         return srv.alive()
@@ -215,8 +225,12 @@ def run(c):
                         continue
                     servers[n] = srv
                 for k in kinds:
-                    step(srv, k, rng, valid, crashers, mutants)
+                    st = step(srv, k, rng, valid, crashers, mutants)
                     c.seen("fault kind " + k)
+                    if st == "unanswered":
+                        # a valid request went unanswered: the history has done its damage, go straight to the probe
+                        c.count("histories cut short after an unanswered valid request")
+                        break
                 quiesce(srv)
                 c.ev()
                 c.seen("N = %d" % n)
